@@ -181,7 +181,7 @@ class C06(Prop):
             near, a, sa, cands = sample(rng)
             sa = [s for s in sa if _valid_clause(s) and "," not in s]
             sd = rng.randrange(1 << 30)
-            how = rng.choice(["str", "str", "list"])
+            how = rng.choice(["str", "str", "list", "and", "gen"])
             base = {"clauses": sa, "how": how, "cands": cands, "combos": ALL9, "seed": sd}
             yield ("gate", base); k += 1
             yield ("filter_contains", base); k += 1
@@ -223,8 +223,16 @@ class C06(Prop):
                 return Specifier(cl[0], prereleases=ov)
             if how == "list":
                 return SpecifierSet([Specifier(c) for c in cl], prereleases=ov)
+            if how == "gen":          # any iterable of Specifier objects: here a one-shot generator
+                return SpecifierSet((Specifier(c) for c in cl), prereleases=ov)
             if any("," in c for c in cl):
                 raise G.Domain("comma inside a clause")
+            if how == "and":
+                # the same set, obtained by intersecting one-clause sets (alternately `set & str` and `set & set`)
+                acc = SpecifierSet(cl[0] if cl else "", prereleases=ov)
+                for i, c in enumerate(cl[1:]):
+                    acc = acc & (c if i % 2 == 0 else SpecifierSet(c))
+                return acc if cl[1:] else acc & SpecifierSet("")
             return SpecifierSet(",".join(cl), prereleases=ov)
 
         members = [Specifier(c) for c in cl]
@@ -251,7 +259,7 @@ class C06(Prop):
 
         combos = [(None if o is None else bool(o), None if p is None else bool(p)) for o, p in inp.get("combos", ALL9)]
         rng = random.Random(inp.get("seed", 0))
-        kinds = [rng.choice("sv") for _ in inp["cands"]]
+        kinds = [rng.choice("ssvvSV") for _ in inp["cands"]]
         vers = [Version(c) for c in inp["cands"]]
 
         def matches_enabled(v, s=None):
@@ -325,6 +333,21 @@ class C06(Prop):
                 if got != wants:
                     return False, (f"{s!r}.filter({inp['cands']!r}, prereleases={p}) yields items {got or '[]'}, "
                                    f"expected {wants or '[]'} ({rule})")
+                # the answer is a function of the *sequence of items*, however the caller hands it over and consumes it:
+                # tuple / one-shot generator / iterator input, a second pass, a partially consumed result
+                for name, arg in (("tuple", tuple(items)), ("generator", (x for x in items)), ("iterator", iter(list(items)))):
+                    alt = G.index_list(items, list(s.filter(arg, prereleases=p)))
+                    if alt != got:
+                        return False, f"{s!r}.filter(<{name} of {inp['cands']!r}>, prereleases={p}) yields {alt or '[]'}, a list gives {got or '[]'}"
+                again = G.index_list(items, list(s.filter(items, prereleases=p)))
+                if again != got:
+                    return False, f"{s!r}.filter: a second pass over the same list yields {again or '[]'}, the first {got or '[]'}"
+                it = iter(s.filter(items, prereleases=p))
+                head = [x for _, x in zip(range(len(out) // 2), it)]
+                if [id(x) for x in head] != [id(x) for x in out[: len(out) // 2]]:
+                    return False, f"{s!r}.filter: the first {len(out) // 2} items of a partially consumed result differ from the full result"
+                if len(items) != len(inp["cands"]):
+                    return False, "filter() changed the length of the list it was given"
             return True, ""
 
         if law == "installed_base":
@@ -390,3 +413,13 @@ PROP = with_src(C06(), share=10, functions=["Specifier.prereleases", "Specifier.
                 theorems=["Src.contains_translated", "Src.Specifier.prereleases_eq_model", "Src._coerce_version_eq_model",
                           "Src._coerce_version_str", "Src.get_operator_call_eq_model", "Src.Specifier.contains_eq_model",
                           "Src.Specifier.filter_eq_model"])
+# x5: the SpecifierSet side — the `prereleases` property (getter and setter), `contains` / `__contains__` and `filter` —
+# proved equal to SSet.SpecSet.prereleases / contains / filter for every iteration order of the frozenset
+PROP = with_src(PROP, share=10,
+                functions=["SpecifierSet.prereleases", "SpecifierSet.prereleases__set", "SpecifierSet.contains",
+                           "SpecifierSet.__contains__", "SpecifierSet.filter"],
+                module=["PkgProofs.Props.Src.SSetRead", "PkgProofs.Props.Src.SSetFilter"],
+                theorems=["Src.read_translated", "Src.filter_translated", "Src.ordered_of_perm",
+                          "Src.SpecifierSet.prereleases_eq_model", "Src.SpecifierSet.prereleases__set_eq_model",
+                          "Src.SpecifierSet.contains_eq_model", "Src.SpecifierSet.contains_str",
+                          "Src.SpecifierSet.__contains___eq_model", "Src.SpecifierSet.filter_eq_model"])
